@@ -38,6 +38,10 @@ func main() {
 		harness.SeedRunMain(args[1], args[2])
 		return
 	}
+	if len(args) == 3 && args[0] == "histdigest" {
+		harness.HistDigestMain(args[1], args[2])
+		return
+	}
 	if len(args) == 0 {
 		fmt.Println("usage: vcheck run|worker|replay|list ...")
 		os.Exit(2)
